@@ -176,7 +176,15 @@ impl Receiver {
             fdt.1.update_expired_state(now);
         });
 
+        let object_timeout = self.config.object_timeout;
         self.fdt_receivers.retain(|_, fdt| {
+            if let Some(object_timeout) = object_timeout.as_ref() {
+                if fdt.is_stalled(now, object_timeout) {
+                    // An FDT is an object (TOI 0), it expires like the other objects
+                    return false;
+                }
+            }
+
             let state = fdt.state();
             state == fdtreceiver::FDTState::Complete || state == fdtreceiver::FDTState::Receiving
         });
